@@ -223,6 +223,10 @@ func (g *engineGen) contScript() []Outcome {
 	ok := Outcome{Resp: "good", Err: "none"}
 	bad := Outcome{Resp: "nil", Err: "permanent"}
 	switch g.ContMode {
+	case "fail0":
+		if g.r.IntN(2) == 0 {
+			return []Outcome{bad}
+		}
 	case "mixed":
 		if g.r.IntN(3) == 0 {
 			k := g.r.IntN(5)
